@@ -700,6 +700,20 @@ example : Damaged storeSeed (storeOf [(1, [1, 2, 10])]) ∧
   · simp [storeOf] at h
     exact absurd h.1.symm hr
 
+/-- **the excluded region (witness).** `Damaged` is needed: a blob whose bytes were REPLACED by other readable text — here
+    exactly what the person typed later — makes the checkpoint see "unchanged" and the entry's line numbers credit the
+    person's lines. Deletion, truncation and bytes that are no longer UTF-8 cannot produce this; a bit flip that stays
+    UTF-8 alters one line of the snapshot, and the person would have to type that very altered line. The snapshot stream
+    runs such blobs (mid-line truncation, bit flips) through the oracles only. -/
+theorem witness_forged_snapshot_invents :
+    commitNote ⟨.empty, .drop⟩ (storeOf [(1, [1, 2, 20, 21])]) wlSeed [1, 2] 99 [1, 2, 20, 21] = [(3, 7), (4, 7)] ∧
+    ¬ Damaged storeSeed (storeOf [(1, [1, 2, 20, 21])]) := by
+  refine ⟨by decide, fun h => ?_⟩
+  obtain ⟨c₀, h0, hp⟩ := h 1 [1, 2, 20, 21] (by simp [storeOf])
+  simp [storeSeed, storeOf] at h0
+  subst h0
+  exact absurd hp (by decide)
+
 end Snapshots
 
 #print axioms fault_dichotomy
@@ -720,5 +734,6 @@ end Snapshots
 #print axioms witness_current_fallback_invents
 #print axioms lost_snapshot_invents_with_current_fallback
 #print axioms witness_initial_current_invents
+#print axioms witness_forged_snapshot_invents
 
 end GitAi.C07
